@@ -70,6 +70,7 @@ def spell(path_v, cwd_v, how):
 
 def run(ctx):
     ctx.check_props()
+    gen_fail = ctx.genlink_goarith("GoLinkC20")    # the Go arithmetic / constants are re-translated from the source and the GEN_* theorems re-checked
     model = ctx.build_model()
     vh = ctx.build_harness()
     par = ctx.build_par_cli()
@@ -213,6 +214,7 @@ def run(ctx):
             report("files after the command differ from the model (%s): impl changed %s, model %s" % (desc, sorted(changed), sorted(mchanged)), replay, True)
         if len(ctx.samples) < 6 and code in (1, 2) and "cwd=/top" in desc:
             ctx.sample({"argv": args, "cwd": cwd, "state": desc.split("|")[1], "exit": code})
+    ctx.report_genlink(gen_fail, "GoLinkC20")
     return ctx.finish(
         "proof",
         rule="the real par binary built from the tree, run in scratch directories: {PAR1, PAR2} x {v, verify, r, repair, upper-case forms, -doublecheck, -a, -g} x archive state {intact, repairable, unrepairable, damaged without recovery files, intact without recovery files, damaged index, missing index, swapped files} x current directory {set directory, its parent, an unrelated directory} x {absolute, relative} spelling of the index; create for .par/.par2/unknown extension with -s/-c, invalid slice size, missing input; 22 usage-error command lines; exit status and the directory tree afterwards compared with the CLI model (cli_run over the library models); non-trivial = reaches a library call",
